@@ -259,11 +259,11 @@ def run_property(pid, tier, seed=0):
     done_generic = {g.split('/')[0] for g in seen_generic}
     spent = 0.0
     for gk, (res, key) in sorted(suspects.items()):
-        if gk in done_generic or spent > 900 or os.environ.get('BNV_NO_KANI'):
+        if gk in done_generic or spent > 2400 or os.environ.get('BNV_NO_KANI'):
             continue
         t1 = time.time()
         try:
-            cex = CEX.search(pid, key, res['digit'], res['mode'], budget_s=300)
+            cex = CEX.search(pid, key, res['digit'], res['mode'], budget_s=900)
         except Exception as ex:
             cex = None
             undecided.append(f'counter-example search for {key} failed: {ex}')
